@@ -107,6 +107,18 @@ def run(ctx):
             ctx.violation("v%s:from_rh:%s-expected-%s" % (ver, got.replace("err\t", ""), want.replace("err\t", "")),
                           "from_rh_vector outcome differs from 'number parses, vector valid, number == base score'",
                           text, want, got, replay={"ver": ver, "text": text})
+    # the SAME string again (and once more): the outcome is a function of the string, not of the history of calls
+    again = cases[:: max(1, len(cases) // ctx.n(1500, 15000))]
+    for ver, text in again:
+        want, o = expect(ver, text)
+        for rep in (2, 3):
+            got = core.impl_construct(ver, "", text, rh=True).rstrip("\t")
+            if got != want:
+                ctx.violation("v%s:from_rh:repeated-call:%s-expected-%s" % (ver, got.replace("err\t", ""), want.replace("err\t", "")),
+                              "from_rh_vector on the same string a second / third time differs from 'number parses, vector "
+                              "valid, number == base score'", text, want, got, replay={"ver": ver, "text": text, "repeat": rep})
+                break
+    ctx.count(2 * len(again))
 
 
 def float_model_tie(ctx, rng):
@@ -158,6 +170,8 @@ def replay(data):
     r = data["replay"]
     want, _ = expect(r["ver"], r["text"])
     got = core.impl_construct(r["ver"], "", r["text"], rh=True).rstrip("\t")
+    for _ in range(int(r.get("repeat", 1)) - 1):
+        got = core.impl_construct(r["ver"], "", r["text"], rh=True).rstrip("\t")
     ok = want == got
     if r.get("roundtrip"):
         o, _ = obs.construct(r["ver"], r["roundtrip"], warm=True)
